@@ -53,6 +53,8 @@ def generate(rng, seed, index, tier):
     kw = gen.quiet_params(kw)
     obs = None
     if rng.random() < 0.15:
+        obs = {"level": "DEBUG", "callbacks": []}
+    elif rng.random() < 0.15:
         # an observer that calls the solver's public single-step API from inside the callback
         obs = {"level": "CRITICAL", "callbacks": ["reenter"]}
     return gen.base_world(seed, ID, index, spec, x0, y0, kw, obs=obs, case={"resolve": bool(rng.random() < 0.3), "faulted": bool(rng.random() < 0.25), "pts_seed": int(rng.integers(0, 2**31))})
